@@ -329,8 +329,14 @@ sexp json_read (sexp ctx, sexp self, sexp in) {
 }
 
 sexp sexp_json_read (sexp ctx, sexp self, sexp_sint_t n, sexp in) {
+  sexp res;
   sexp_assert_type(ctx, sexp_iportp, SEXP_IPORT, in);
-  return json_read(ctx, self, in);
+  /* like read: wait for input on a non-blocking port instead of */
+  /* treating "would block" as an unexpected end of input */
+  sexp_check_block_port(ctx, in, 0);
+  res = json_read(ctx, self, in);
+  sexp_maybe_unblock_port(ctx, in);
+  return res;
 }
 
 
